@@ -170,3 +170,22 @@ func schemaRoute() *fakeMD {
 		&fakeFD{name: "h", kind: protoreflect.MessageKind, msg: sub},
 	)
 }
+
+// schemaBody / schemaOut: request and reply types with DIFFERENT field sets, so that a selector
+// resolved against the wrong descriptor is visible.
+func schemaBody() *fakeMD {
+	inner := newFakeMD("vf.Inner", strField("id"), strField("text"))
+	return newFakeMD("vf.BodyReq",
+		strField("id"),
+		&fakeFD{name: "msg", kind: protoreflect.MessageKind, msg: inner},
+		strField("note"),
+	)
+}
+
+func schemaOut() *fakeMD {
+	sub := newFakeMD("vf.OutSub", strField("x"))
+	return newFakeMD("vf.BodyResp",
+		strField("r"),
+		&fakeFD{name: "sub", kind: protoreflect.MessageKind, msg: sub},
+	)
+}
